@@ -56,6 +56,18 @@ func bitsOf(f float32) uint32 { return math.Float32bits(f) }
 
 // convert converts scalar v to scalar type t (value conversion, as a constructor does).
 func (p *Program) convert(v *Val, t *Type) *Val {
+	r := p.convert32(v, t)
+	if t.Bits == 8 {
+		if t.K == 'i' {
+			r.S = uint32(int32(int8(r.S)))
+		} else {
+			r.S &= 0xFF
+		}
+	}
+	return r
+}
+
+func (p *Program) convert32(v *Val, t *Type) *Val {
 	if v.T.K == t.K {
 		return &Val{T: t, S: v.S}
 	}
@@ -660,6 +672,12 @@ func (p *Program) construct(t *Type, args []*Val) *Val {
 		if len(args) == 0 {
 			return r
 		}
+		// brace elision: a struct with a single array member (naga's MSL array wrappers)
+		// initialised with the flat list of the array's elements
+		if t.K == 'S' && len(t.Fields) == 1 && t.Fields[0].T.K == 'A' && len(args) > 1 {
+			r.E[0] = p.construct(t.Fields[0].T, args)
+			return r
+		}
 		if len(args) == 1 && args[0].T.K == t.K && len(args[0].E) == len(r.E) {
 			return p.coerce(args[0], t)
 		}
@@ -684,6 +702,10 @@ func (p *Program) initValue(t *Type, e *node) *Val {
 			if len(e.kids) == 1 {
 				return p.coerce(p.initValue(t, e.kids[0]), t)
 			}
+			return r
+		}
+		if t.K == 'S' && len(t.Fields) == 1 && t.Fields[0].T.K == 'A' && len(e.kids) > 1 {
+			r.E[0] = p.initValue(t.Fields[0].T, e) // brace elision
 			return r
 		}
 		if len(e.kids) > len(r.E) {
@@ -894,6 +916,17 @@ func (p *Program) staticType(e *node) *Type {
 }
 
 func (p *Program) reinterpret(v *Val, t *Type) *Val {
+	// as_type between a 32-bit scalar and a vector of four 8-bit components (little endian)
+	if v.T.K == 'V' && len(v.E) == 4 && v.T.Elem.Bits == 8 && t.scalar() && t.Bits == 0 {
+		return &Val{T: t, S: v.E[0].S&0xFF | (v.E[1].S&0xFF)<<8 | (v.E[2].S&0xFF)<<16 | (v.E[3].S&0xFF)<<24}
+	}
+	if v.T.scalar() && v.T.Bits == 0 && t.K == 'V' && t.N == 4 && t.Elem.Bits == 8 {
+		r := &Val{T: t}
+		for i := uint(0); i < 4; i++ {
+			r.E = append(r.E, p.convert(&Val{T: tUint, S: v.S >> (8 * i)}, t.Elem))
+		}
+		return r
+	}
 	if v.T.K == 'V' {
 		r := &Val{T: t}
 		et := t
